@@ -3,6 +3,7 @@
 #pragma once
 #include "driver.h"
 #include "world.h"
+#include "sealaudit.h"
 #include <queue>
 
 struct DgFate { int kind = 0; int64_t a = 0; };      // 0 deliver, 1 drop, 2 dup (second copy after a ms), 3 delay by a ms
@@ -43,6 +44,7 @@ class DtlsSim {
     int pmtu = 1500;
     int complete_event[2] = { -1, -1 };   // event index at which each node was first seen complete
     bool post_completion_resend = false;  // a node that had already completed emitted handshake/CCS records again (final-flight resend)
+    SealAudit audit;
     bool faults_enabled = true;       // cleared for the final probes ("once faults stop")
 
     explicit DtlsSim(const Plan &p);
@@ -55,6 +57,10 @@ class DtlsSim {
     MxEndpoint &ep(int role) { return role == 0 ? *w.cli : *w.srv; }
     void schedule_app_send(int64_t at, int role, size_t len);
     void schedule_replay(int64_t at, int emit_index);
+    // standard schedule: handshake phase until both complete or the liveness budget after the last fault is spent, then the
+    // application phase (app / afate / areplay ops) and, if asked, the final fault-free probes. Returns true if both completed.
+    bool run_plan(bool with_probes, size_t *probe_before = nullptr);
+    size_t hs_dgrams = 0; bool dead_after_app = false;
     uint64_t fingerprint();
     static std::string record_kind(const Record &r);
 };
